@@ -419,6 +419,8 @@ fn newton_raphson_root_find<Curve: BezierCurve>(curve: &Curve, point: &Curve::Po
     if denominator == 0.0 {
         estimated_t
     } else {
-        estimated_t - (numerator/denominator)
+        // The error of a fit is measured at these positions, so they need to stay on the curve (0..1) for the error to bound
+        // how far the points are from the section of the curve that will be returned
+        (estimated_t - (numerator/denominator)).max(0.0).min(1.0)
     }
 }
